@@ -1,6 +1,7 @@
 import HdVerif.Model.Basic
 import HdVerif.Generated.T15a
 import HdVerif.Generated.T15b
+import HdVerif.Generated.T15d
 /-! C15: SR documents, evidence collection and references built from a segmentation.
 
 Models `sr/utils.py` (`find_content_items`, `collect_evidence`, `_create_references`), the decision logic of
@@ -249,6 +250,26 @@ def getEvidence (d : Doc) (currentOnly : Bool) : List Row :=
 def getEvidenceSeries (d : Doc) (currentOnly : Bool) : List Key :=
   let ser (g : Groups) : List Key := g.flatMap (fun st => st.2.map (fun se => (st.1, se.1)))
   dedup (ser d.current ++ (if currentOnly then [] else ser d.other)) []
+
+/-! ## the root item through write and parse (attribute level) -/
+
+/-- attributes a root content item can carry (Document Content Macro and Document Relationship Macro for a CONTAINER):
+(keyword, optional) -/
+def rootItemAttributes : List (String × Bool) :=
+  [("ValueType", false), ("ConceptNameCodeSequence", false), ("ContinuityOfContent", false), ("ContentSequence", false),
+   ("ContentTemplateSequence", true), ("ObservationDateTime", true), ("ObservationUID", true)]
+
+/-- `_SR.__init__`: `for tag, value in content.items(): self[tag] = value` — every attribute of the root item becomes an
+attribute of the document data set -/
+def writeRoot (present : List String) : List String := present
+
+/-- `_SR.from_dataset`: the root item is rebuilt from the attributes listed in the source (`Gen.srParsedRootAttributes`,
+regenerated every run); an unconditional one that is missing is an error -/
+def parseRoot (doc : List String) : Except ErrKind (List String) :=
+  Gen.srParsedRootAttributes.foldr (fun (kw, cond) acc =>
+    match acc with
+    | .error e => .error e
+    | .ok l => if doc.contains kw then .ok (kw :: l) else if cond then .ok l else .error .attribute) (.ok [])
 
 /-! ## key object selection documents (`ko/sop.py`) -/
 
